@@ -71,7 +71,7 @@ def _parse_printed(out: str):
     return js, tups
 
 
-def run_tlc(module: str, cfg_text: str, workdir: Path, *, workers: int | str = 16, env: dict | None = None,
+def run_tlc(module: str, cfg_text: str, workdir: Path, *, workers: int | str | None = None, env: dict | None = None,
             simulate: str | None = None, depth: int | None = None, seed: int | None = None,
             timeout: int = 1800, coverage: bool = False, deadlock: bool = False, heap: str = "8g",
             extra_modules: dict | None = None, dfs: bool = False) -> TLCResult:
@@ -79,6 +79,8 @@ def run_tlc(module: str, cfg_text: str, workdir: Path, *, workers: int | str = 1
 
     The module is run from a scratch directory containing a two-line wrapper, so that cfg and
     metadir live in `workdir` and nothing is written next to the specs."""
+    if workers is None:
+        workers = os.environ.get("VERIF_TLC_WORKERS", "16")
     workdir.mkdir(parents=True, exist_ok=True)
     cfg = workdir / f"{module}.cfg"
     cfg.write_text(cfg_text)
@@ -270,7 +272,7 @@ def cfg(init="Init", next_="Next", constants: dict | None = None, invariants=(),
     if constants:
         lines.append("CONSTANTS")
         for k, v in constants.items():
-            lines.append(f"  {k} = {v}")
+            lines.append(f"  {k} {v}" if str(v).startswith("<-") else f"  {k} = {v}")
     for i in invariants:
         lines.append(f"INVARIANT {i}")
     for c in constraints:
@@ -284,3 +286,25 @@ def cfg(init="Init", next_="Next", constants: dict | None = None, invariants=(),
     if view:
         lines.append(f"VIEW {view}")
     return "\n".join(lines) + "\n"
+
+
+def run_tlc_mc(base: str, defs: dict, workdir_: Path, *, constants: dict | None = None, extends: str = "", **kw) -> TLCResult:
+    """Run `base` through a generated wrapper module MC_<base> that defines structured constants as TLA+
+    expressions (cfg files accept only atoms and sets): defs = {CONSTNAME: 'tla expression'}."""
+    name = f"MC_{base}"
+    body = [f"---- MODULE {name} ----", f"EXTENDS {base}{(', ' + extends) if extends else ''}"]
+    subst = {}
+    for k, v in defs.items():
+        body.append(f"MCdef_{k} == {v}")
+        subst[k] = f"MCdef_{k}"
+    body.append("====")
+    cfg_kw = {k: kw.pop(k) for k in ("init", "next_", "invariants", "constraints", "properties", "postcondition", "view", "spec",
+                                     "action_constraints") if k in kw}
+    allc = dict(constants or {})
+    allc.update({k: f"<- {v}" for k, v in subst.items()})
+    text = cfg(constants=allc, **cfg_kw)
+    workdir_.mkdir(parents=True, exist_ok=True)
+    for d in SPEC_DIRS:
+        if (d / f"{base}.tla").exists():
+            shutil.copy(d / f"{base}.tla", workdir_ / f"{base}.tla")
+    return run_tlc(name, text, workdir_, extra_modules={name: "\n".join(body) + "\n"}, **kw)
